@@ -2,8 +2,11 @@
 
   effects.sites      every call in dissect/hypervisor/**/*.py that can touch the file system or a caller handle
                      (C09): path opens with their literal mode, read_text/read_bytes, write-like methods with a
-                     classification of the receiver, os/shutil/tempfile/subprocess calls, dynamic evaluation,
-                     in-place crypto output, buffer aliasing.
+                     classification of the receiver, os/shutil/tempfile/subprocess calls, dynamic evaluation
+                     (exec / eval / importlib, and reuse of foreign code: `__code__` / `__globals__` attribute access,
+                     types.FunctionType / types.CodeType, runpy), in-place crypto output, buffer aliasing.
+  effects.tools      the tool modules (dissect/hypervisor/tools/**/*.py, any __main__.py) and
+  effects.scripts    the console-script entry points of pyproject.toml: the programs the library ships (C09)
   xml.entrypoints    every call that turns text into an element tree, with the module it resolves to (C19)
   xml.imports        every import of an XML library, with whether it sits under `if TYPE_CHECKING:`
 """
@@ -18,6 +21,11 @@ OS_READONLY = {"os.path.basename", "os.path.dirname", "os.path.join", "os.path.e
                "os.path.abspath", "os.path.splitext", "os.path.normpath", "os.fspath", "os.path.split", "os.path.getsize",
                "os.environ.get", "os.getenv"}
 DYNAMIC = {"exec", "eval", "__import__", "compile"}
+# running code that is not written in the scanned files: code objects taken from other functions / modules and rebuilt into
+# functions (`f.__code__`, `types.FunctionType(code, globals)`, `types.CodeType(...)`), re-execution of whole modules
+CODE_ATTRS = {"__code__", "__globals__", "__closure__", "__builtins__", "__wrapped__", "__func__"}
+CODE_REUSE = ("types.FunctionType", "types.LambdaType", "types.CodeType", "types.new_class", "types.ModuleType", "runpy.", "code.Interactive",
+              "marshal.loads", "pickle.loads", "pickle.load")
 XML_PARSE = {"fromstring", "XML", "parse", "iterparse", "XMLParser", "XMLPullParser", "parseString", "fromstringlist", "XMLID",
              "ParserCreate", "make_parser", "TreeBuilder"}
 XML_LIBS = ("xml", "lxml", "defusedxml", "pyexpat", "xmltodict", "bs4")
@@ -83,6 +91,11 @@ class _Scan(ast.NodeVisitor):
                 self.visit(n)
         else:
             self.generic_visit(node)
+
+    def visit_Attribute(self, node):
+        if node.attr in CODE_ATTRS:
+            self.sites.append((self.rel, ".".join(self.scope) or "<module>", _dotted(node)[:80], "dynamic", "attr:" + node.attr))
+        self.generic_visit(node)
 
     # ---- imports
     def visit_Import(self, node):
@@ -196,6 +209,8 @@ class _Scan(ast.NodeVisitor):
             kind, mode = "dynamic", meth
         elif res.startswith("importlib."):
             kind, mode = "dynamic", res
+        elif any(res == c or (c.endswith(".") and res.startswith(c)) for c in CODE_REUSE):
+            kind, mode = "dynamic", res
         elif isinstance(node.func, ast.Call) and _dotted(node.func.func) == "getattr" and len(node.func.args) >= 2 \
                 and not isinstance(node.func.args[1], ast.Constant):
             kind, mode = "dynamic", "getattr-call"                    # calling a method chosen at run time
@@ -222,6 +237,41 @@ class _Scan(ast.NodeVisitor):
             kws = ",".join(sorted(f"{k.arg}={_dotted(k.value)}" for k in node.keywords))
             self.xml_calls.append((self.rel, fn, d, res, kws, bool(self.type_checking)))
         self.generic_visit(node)
+
+
+def shipped_programs(repo):
+    """-> (tool modules [(file, defines a module-level `main`)], console scripts [(name, target)]): every program the package
+    installs or offers under dissect/hypervisor/tools"""
+    root = Path(repo) / "dissect" / "hypervisor"
+    tools = []
+    for p in sorted((root / "tools").rglob("*.py")) if (root / "tools").is_dir() else []:
+        if p.name == "__init__.py" and not p.read_text().strip():
+            continue
+        try:
+            tree = ast.parse(p.read_text())
+            has_main = any(isinstance(n, (ast.FunctionDef, ast.AsyncFunctionDef)) and n.name == "main" for n in tree.body) \
+                or any(isinstance(n, (ast.Assign, ast.ImportFrom, ast.Import)) and "main" in _dotted(n) for n in tree.body)
+        except Exception:  # noqa
+            has_main = True
+        tools.append((str(p.relative_to(root)), "main" if has_main else ""))
+    # `python -m` targets anywhere else in the package
+    for p in sorted(root.rglob("__main__.py")):
+        tools.append((str(p.relative_to(root)), "__main__"))
+    scripts = []
+    try:
+        import tomllib
+        proj = tomllib.loads((Path(repo) / "pyproject.toml").read_text()).get("project", {})
+        tabs = [("scripts", proj.get("scripts", {})), ("gui-scripts", proj.get("gui-scripts", {}))] + \
+            [("entry-points:" + g, t) for g, t in sorted(proj.get("entry-points", {}).items())]
+        for tab, d in tabs:
+            for k, v in sorted(d.items()):
+                scripts.append((k if tab == "scripts" else f"{tab}:{k}", str(v)))
+    except Exception as e:  # noqa
+        scripts.append(("?", f"pyproject.toml unreadable: {e}"[:80]))
+    for extra in ("setup.py", "setup.cfg"):
+        if (Path(repo) / extra).exists() and "console_scripts" in (Path(repo) / extra).read_text():
+            scripts.append(("?", extra + " declares console_scripts"))
+    return tools, scripts
 
 
 def scan_repo(repo):
@@ -273,6 +323,11 @@ def extract_more(w, problems, get, func_literals, guid_bytes_le):
     w.raw("def cliArgs : List (String × String × String × String × String × String) := [\n  " +
           ",\n  ".join("(" + ", ".join(_ls(v) for v in c) + ")" for c in cli) + "]")
     w.fp["effects.cliArgs"] = [list(c) for c in cli]
+    tools, scripts = shipped_programs(repo)
+    w.raw("def tools : List (String × String) := [" + ", ".join("(" + _ls(a) + ", " + _ls(b) + ")" for a, b in tools) + "]")
+    w.raw("def scripts : List (String × String) := [" + ", ".join("(" + _ls(a) + ", " + _ls(b) + ")" for a, b in scripts) + "]")
+    w.fp["effects.tools"] = [list(t) for t in tools]
+    w.fp["effects.scripts"] = [list(t) for t in scripts]
     w.end("effects")
     w.ns("xml")
     w.raw("def entrypoints : List (String × String × String × String × String × Bool) := [\n  " +
